@@ -103,7 +103,7 @@ def campaign(ctx, prop, quick=None):
         sched = SCHEDULES[(i + ctx.seed) % len(SCHEDULES)]
         two = (i % 3 == 1)
         one = write_script(j, "s0", route, None, two) + read_back(j, "h1", "s0")
-        split = write_script(j, "s1", route, sched, two)
+        split = write_script(j, "s0", route, sched, two)       # the same store = the same file name (SVX / MPC2K record it in the header)
         vio = write_script(j, "s0", "vio", None, two)
         plan.append(dict(j=j, i=i, route=route, sched=sched, one="\n".join(one) + "\n", split="\n".join(split) + "\n", vio="\n".join(vio) + "\n"))
         scripts += [("one|%d" % i, plan[-1]["one"]), ("split|%d" % i, plan[-1]["split"]), ("vio|%d" % i, plan[-1]["vio"])]
